@@ -14,6 +14,11 @@ def _w(v):
 def neq(a, b):
     """python bool or z3 Bool: a differs from b (ints / bit-vectors of any widths, compared zero-extended)"""
     if is_c(a) and is_c(b): return a != b
+    if a is b: return False
+    if not is_c(a) and not is_c(b):
+        try:
+            if a.eq(b): return False          # the same term (z3 terms are hash-consed): no simplifier call, no obligation to decide
+        except Exception: pass
     wa = _w(a); wb = _w(b)
     w = max(x for x in (wa, wb, 1) if x is not None)
     if is_c(a): w = max(w, a.bit_length())
